@@ -1,7 +1,7 @@
 //! C14: after an operation that returned an error, every observation of the store.
 use crate::out::{guard, Out};
 use crate::rng::Rng;
-use crate::storegen::{aid, apply, dbuild, new_store, observe, sbuild, GenCfg, Shadow};
+use crate::storegen::{aid, apply, cursor, dbuild, did, kid, new_store, observe, rid, sbuild, sid, value, GenCfg, Shadow};
 use crate::sx::{a, l, Sx};
 use stam::*;
 
@@ -21,7 +21,106 @@ fn builder<'a>(x: &Sx) -> AnnotationBuilder<'a> {
     b
 }
 
+/// a reference as a string of a JSON document: the public id, or the temporary id for a handle
+fn ref_str(x: &Sx, namer: fn(i64) -> String, letter: char) -> String {
+    if x.nth(0).int() == 0 {
+        namer(x.nth(1).int())
+    } else {
+        format!("!{}{}", letter, x.nth(1).int())
+    }
+}
+
+fn selector_json(x: &Sx) -> Option<serde_json::Value> {
+    use serde_json::json;
+    let off = |b: &Sx, e: &Sx| json!({"@type": "Offset", "begin": serde_json::to_value(cursor(b)).ok(), "end": serde_json::to_value(cursor(e)).ok()});
+    Some(match x.nth(0).int() {
+        0 => json!({"@type": "TextSelector", "resource": ref_str(x.nth(1), rid, 'R'), "offset": off(x.nth(2), x.nth(3))}),
+        1 => json!({"@type": "AnnotationSelector", "annotation": ref_str(x.nth(1), aid, 'A')}),
+        2 => json!({"@type": "AnnotationSelector", "annotation": ref_str(x.nth(1), aid, 'A'), "offset": off(x.nth(2), x.nth(3))}),
+        3 => json!({"@type": "ResourceSelector", "resource": ref_str(x.nth(1), rid, 'R')}),
+        4 => json!({"@type": "DataSetSelector", "annotationset": ref_str(x.nth(1), sid, 'S')}),
+        5 => json!({"@type": "DataKeySelector", "annotationset": ref_str(x.nth(1), sid, 'S'), "key": ref_str(x.nth(2), kid, 'K')}),
+        6 => json!({"@type": "AnnotationDataSelector", "annotationset": ref_str(x.nth(1), sid, 'S'), "data": ref_str(x.nth(2), did, 'D')}),
+        _ => {
+            let subs: Option<Vec<serde_json::Value>> = x.list()[2..].iter().map(selector_json).collect();
+            let t = match x.nth(1).int() {
+                1 => "MultiSelector",
+                2 => "CompositeSelector",
+                _ => "DirectionalSelector",
+            };
+            json!({"@type": t, "selectors": subs?})
+        }
+    })
+}
+
+/// the builder as an element of a STAM JSON annotation list; None when the document cannot say it
+/// (no target; a data item or key named by handle)
+fn builder_json(x: &Sx) -> Option<serde_json::Value> {
+    use serde_json::json;
+    let target = match x.nth(1) {
+        Sx::L(_) => selector_json(x.nth(1))?,
+        _ => return None,
+    };
+    let mut data = Vec::new();
+    for d in x.nth(2).list() {
+        let mut o = serde_json::Map::new();
+        o.insert("@type".into(), json!("AnnotationData"));
+        o.insert("set".into(), json!(ref_str(d.nth(0), sid, 'S')));
+        match d.nth(1) {
+            Sx::A(_) => {}
+            r if r.nth(0).int() == 0 => {
+                o.insert("@id".into(), json!(did(r.nth(1).int())));
+            }
+            _ => return None,
+        }
+        match d.nth(2) {
+            Sx::A(_) => {}
+            r if r.nth(0).int() == 0 => {
+                o.insert("key".into(), json!(kid(r.nth(1).int())));
+            }
+            _ => return None,
+        }
+        o.insert("value".into(), serde_json::to_value(value(d.nth(3))).ok()?);
+        data.push(serde_json::Value::Object(o));
+    }
+    let mut o = serde_json::Map::new();
+    o.insert("@type".into(), json!("Annotation"));
+    if x.nth(0).int() >= 0 {
+        o.insert("@id".into(), json!(aid(x.nth(0).int())));
+    }
+    o.insert("target".into(), target);
+    o.insert("data".into(), serde_json::Value::Array(data));
+    Some(serde_json::Value::Object(o))
+}
+
 pub fn apply14(store: &mut AnnotationStore, op: &Sx) -> i64 {
+    if op.nth(0).int() == 15 {
+        // annotate_from_file: the same batch read from a STAM JSON document; a batch the document
+        // cannot express goes through annotate_from_iter (the model does not distinguish the two)
+        let docs: Option<Vec<serde_json::Value>> = op.list()[1..].iter().map(builder_json).collect();
+        if let Some(docs) = docs {
+            let dir = std::env::temp_dir().join(format!("verif-c14-{}", std::process::id()));
+            let _ = std::fs::create_dir_all(&dir);
+            let path = dir.join("batch.annotations.stam.json");
+            if std::fs::write(&path, serde_json::Value::Array(docs).to_string()).is_ok() {
+                let p = path.to_string_lossy().to_string();
+                let r = match guard(|| store.annotate_from_file(p.as_str()).map(|_| ())) {
+                    None => -1,
+                    Some(Err(_)) => 0,
+                    Some(Ok(_)) => 1,
+                };
+                let _ = std::fs::remove_file(&path);
+                let _ = std::fs::remove_dir(&dir);
+                return r;
+            }
+        }
+        let builders: Vec<AnnotationBuilder> = op.list()[1..].iter().map(builder).collect();
+        return match guard(|| store.annotate_from_iter(builders)) {
+            None => -1,
+            Some(Err(_)) => 0,
+            Some(Ok(_)) => 1,
+        };
+    }
     if op.nth(0).int() == 12 {
         let builders: Vec<AnnotationBuilder> = op.list()[1..].iter().map(builder).collect();
         match guard(|| store.annotate_from_iter(builders)) {
@@ -68,7 +167,7 @@ pub fn generate(out: &mut Out, tier: &str, seed: u64) {
     let thorough = tier == "thorough";
     let ctx = Ctx::new();
     let mut rng = Rng::new(seed ^ 0xC14);
-    let n = if thorough { 60000 } else { 3000 };
+    let n = if thorough { 500000 } else { 3000 };
     for i in 0..n {
         let cfg = GenCfg { max_ops: if i % 4 == 0 { 30 } else { 12 }, removals: 2, invalid: 4, values: false };
         // generate against a scratch store so that the references are mostly valid
@@ -79,7 +178,7 @@ pub fn generate(out: &mut Out, tier: &str, seed: u64) {
         for _ in 0..len {
             let op = if rng.chance(1, 6) {
                 // a batch of 1..4 annotations
-                let mut v = vec![a(12)];
+                let mut v = vec![a(if rng.chance(1, 2) { 12 } else { 15 })];
                 for _ in 0..1 + rng.below(4) {
                     for _ in 0..30 {
                         let o = shadow.gen_op(&mut rng, &cfg);
@@ -103,6 +202,8 @@ pub fn generate(out: &mut Out, tier: &str, seed: u64) {
                 (13, _) => "add_dataset_with_data_failed",
                 (12, 1) => "batch_ok",
                 (12, _) => "batch_failed",
+                (15, 1) => "batch_from_file_ok",
+                (15, _) => "batch_from_file_failed",
                 (3, 1) => "annotate_ok",
                 (3, _) => "annotate_failed",
                 (2, 1) => "insert_data_ok",
@@ -123,5 +224,5 @@ pub fn generate(out: &mut Out, tier: &str, seed: u64) {
     }
 }
 
-pub const RULE: &str = "seeded random histories of 1..12 (every 4th: 1..30) operations where one reference in four is invalid (unknown resource / annotation / dataset / key / data by id or handle, inverted and out-of-range offsets in both alignments, relative offsets beyond the parent, duplicate ids with different content, nested complex selectors, missing target, valid target with invalid data and vice versa) one operation in six is a batch (annotate_from_iter of 1..4 builders, the failing one at any position) and one in eight an add_dataset with 1..3 data items; after EVERY operation that returns an error (or panics) the complete observation vector of C01 (all items, all reverse lookups, text selections, vocabulary, id resolution) is compared with the one before the call. One evaluation = one outcome or item record.";
+pub const RULE: &str = "seeded random histories of 1..12 (every 4th: 1..30) operations where one reference in four is invalid (unknown resource / annotation / dataset / key / data by id or handle, inverted and out-of-range offsets in both alignments, relative offsets beyond the parent, duplicate ids with different content, nested complex selectors, missing target, valid target with invalid data and vice versa) one operation in six is a batch (annotate_from_iter, or annotate_from_file on a STAM JSON document written for it, of 1..4 builders, the failing one at any position) and one in eight an add_dataset with 1..3 data items; after EVERY operation that returns an error (or panics) the complete observation vector of C01 (all items, all reverse lookups, text selections, vocabulary, id resolution) is compared with the one before the call. One evaluation = one outcome or item record.";
 pub const EXHAUSTIVE: bool = false;
